@@ -84,6 +84,9 @@ pub struct Spec {
     pub can_err: bool,
     /// this leaf never answers Pending (ready on every poll)
     pub eager: bool,
+    /// this leaf answers Pending on its first poll without that being a choice (or a deviation): the default environment
+    /// then fires its waker and it proceeds as usual - used to put many children in flight under a small deviation bound
+    pub lazy: bool,
 }
 
 // ---------------------------------------------------------------------------------------
@@ -728,7 +731,7 @@ impl World {
         let r = &self.children[id as usize];
         let mut opts: [LeafAns; 6] = [LeafAns::Pending; 6];
         let mut n = 0;
-        if r.spec.never || r.seq >= r.never_after {
+        if r.spec.never || r.seq >= r.never_after || (r.spec.lazy && r.last == Ans::Unpolled) {
             opts[n] = LeafAns::Pending;
             n += 1;
         } else {
@@ -771,7 +774,7 @@ impl World {
         let r = &mut self.children[id as usize];
         match ans {
             LeafAns::Pending | LeafAns::PendingSelf => {
-                if !(r.spec.never || r.seq >= r.never_after) {
+                if !(r.spec.never || r.seq >= r.never_after || (r.spec.lazy && r.last == Ans::Unpolled)) {
                     r.pend_left -= 1;
                 }
             }
